@@ -2,11 +2,13 @@
    The reader does not walk over foreign blocks: on a block of another file it jumps to the
    NEXT recorded offset.  That is right exactly because the offsets are the starts of the
    MAXIMAL runs of the file's blocks (run_offs): invariant RI below. *)
+From MLA Require Import Limit.
 From MLA Require Import Base Stream Blocks Reader RoundTripBlocks RoundTripFooter.
 From Coq Require Import ZifyBool ZifyNat ZifyN.
 Open Scope N_scope.
 
 Section RTReader.
+  Context {LIM : Limit}.
   Variable FNMAX : N.
   Variables T_START T_CONTENT T_EOA T_EOF : N.
   Hypothesis Htags : tags_distinct T_START T_CONTENT T_EOA T_EOF.
